@@ -54,18 +54,21 @@ theorem block_eq (flag : Bool) {lo : List OutHtlc} {li : List InHtlc} (po : OutS
       rw [e1, hamt h hm h' hm' e1]
 
 /-- the head of the a→b stream, as seen by the two HTLC families -/
-theorem head_tokens {s : Sys} {c : Commit} {rest : List Msg} (hq : s.qab = Msg.cs c :: rest) (id : Nat) :
+theorem head_tokens {s : Sys} {c : Commit} {rest : List Msg} (hb : Base s) (hq : s.qab = Msg.cs c :: rest) (id : Nat) :
     (cfgA s id).fwd.head? = some .cs ∧ (cfgA s.swap id).bwd.head? = some .cs := by
+  have hpa : s.a.paused = false := by
+    cases hp : s.a.paused with
+    | false => rfl
+    | true => have := hb.i6 hp; rw [this] at hq; cases hq
   have : s.fullAB = Msg.cs c :: full rest s.pendA s.needRaaA s.a.raaSent s.a.owesRaa := by
-    show full s.qab s.pendA s.needRaaA s.a.raaSent s.a.owesRaa = _
-    rw [hq, full_pop]
+    rw [Sys.fullAB_unpaused hpa, hq, full_pop]
   refine ⟨?_, ?_⟩
   · show (List.filterMap (tokF id) s.fullAB).head? = _
     rw [this]; rfl
   · show (List.filterMap (tokB id) s.fullAB).head? = _
     rw [this]; rfl
 
-theorem htlcs_agree {s : Sys} {c : Commit} {rest : List Msg} (hq : s.qab = Msg.cs c :: rest)
+theorem htlcs_agree {s : Sys} {c : Commit} {rest : List Msg} (hb : Base s) (hq : s.qab = Msg.cs c :: rest)
     (hg : GoodA s) (hg' : GoodA s.swap) (ha : Amt s) (ha' : Amt s.swap) (oka : NodeOK s.a) (okb : NodeOK s.b) :
     sortH (s.a.buildView false true).htlcs = sortH (s.b.buildView true false).htlcs := by
   -- HTLCs offered by a
@@ -74,7 +77,7 @@ theorem htlcs_agree {s : Sys} {c : Commit} {rest : List Msg} (hq : s.qab = Msg.c
     apply block_eq false (fun st => st.included true) (fun st => st.included false) oka.sOut okb.sIn ha.a1
     · intro id h1
       have := good_okI _ (hg id)
-      rw [(head_tokens hq id).1] at this
+      rw [(head_tokens hb hq id).1] at this
       simp only [cfgA] at this
       cases ho : stOut s.a.outb id with
       | none => rw [ho] at h1; cases h1
@@ -85,7 +88,7 @@ theorem htlcs_agree {s : Sys} {c : Commit} {rest : List Msg} (hq : s.qab = Msg.c
         | some st' => exact in_included_false st'
     · intro id h1
       have := good_okI _ (hg id)
-      rw [(head_tokens hq id).1] at this
+      rw [(head_tokens hb hq id).1] at this
       simp only [cfgA] at this
       cases hi : stIn s.b.inb id with
       | none => rw [hi] at h1; cases h1
@@ -100,7 +103,7 @@ theorem htlcs_agree {s : Sys} {c : Commit} {rest : List Msg} (hq : s.qab = Msg.c
     apply block_eq true (fun st => st.included false) (fun st => st.included true) okb.sOut oka.sIn ha'.a1
     · intro id h1
       have := good_okO _ (hg' id)
-      rw [(head_tokens hq id).2] at this
+      rw [(head_tokens hb hq id).2] at this
       simp only [cfgA, Sys.swap] at this
       cases ho : stOut s.b.outb id with
       | none => rw [ho] at h1; cases h1
@@ -111,7 +114,7 @@ theorem htlcs_agree {s : Sys} {c : Commit} {rest : List Msg} (hq : s.qab = Msg.c
         | some st' => rw [hi] at this; simp [inclTi, inclF] at this; simp [optP] at h1 ⊢; rw [this]; exact h1
     · intro id h1
       have := good_okO _ (hg' id)
-      rw [(head_tokens hq id).2] at this
+      rw [(head_tokens hb hq id).2] at this
       simp only [cfgA, Sys.swap] at this
       cases hi : stIn s.a.inb id with
       | none => rw [hi] at h1; cases h1
